@@ -16,6 +16,11 @@ A *case* is a JSON-able dict
   template [["lit", text] | ["arg", name], ...], args {name: text}   (invalidate; pattern = the substitution)
   access   {name: "sub" | "attr" | "subattr"}   (invalidate, optional) how the template reaches the text of an argument: `{x[k]}` with the
            argument passed as {"k": text}, `{x.a}` with an object whose attribute a is the text, `{x[k].a}` with {"k": object}
+  txops may also hold ["delm", text] - `delete_many(text)` instead of `delete(text)` (the model's pending delete all the same);
+  crossing True: `txadv` lets a ttl ASSIGNED INSIDE the transaction elapse before the judged read (scan / get_match only).  The C03/C04
+           proviso excludes that for the comparison with direct execution and with the commit (there the store's old value shows through
+           again - documented); the selection inside the transaction is still judged against the model and the glob spec on the
+           transaction's view (an expired buffered write does not hide the store's key).
   warm     [["scan"|"get_match", "outside"|"tx"], ...]   (tx / invalidate-in-a-transaction, optional) pattern reads issued on the SAME Cache object
            before the judged transaction: outside any transaction, or inside an earlier transaction that is committed empty
 
@@ -399,6 +404,8 @@ async def _txops(api, case: dict):
             [k async for k in api.scan(op_pattern(case, op))]
         elif op[0] == "getmatch":
             [kv async for kv in api.get_match(op_pattern(case, op))]
+        elif op[0] == "delm":
+            await api.delete_many(op[1])
         else:
             await api.delete(op[1])
     CLOCK.advance(case.get("txadv", 0))
@@ -625,7 +632,7 @@ def judge(case: dict, obs: dict, ans: str, answers: list[str] | None = None) -> 
         bad.append(f"{what}: implementation {seen}, property (glob on live keys) {spec}")
     if seen != model:
         diff.append(f"{what}: implementation {seen}, model {model}")
-    if in_tx:
+    if in_tx and not case.get("crossing"):
         if obs.get("direct_res") != res:
             bad.append(f"inside the transaction {res}, executed directly {obs.get('direct_res')}")
         if cmd == "delete_match":
@@ -706,7 +713,8 @@ def rand_val(rng, store: bool) -> str:
     return rng.choice(ORDINARY_VALS)
 
 
-PLACEMENTS = ["A", "S", "X", "O", "SO", "XO", "SD", "D", "SDO", "OD", "St", "Ot", "B", "BO", "BD"]
+PLACEMENTS = ["A", "S", "X", "O", "SO", "XO", "SD", "D", "SDO", "OD", "St", "Ot", "B", "BO", "BD", "SOD"]
+# SOD: store entry overwritten in the transaction and then removed with delete_many
 # A absent; S in the store (live, no ttl); St in the store with a live ttl; X in the store, expired and unpurged;
 # O written in the transaction; Ot written in the transaction with a ttl; SO / XO store entry overwritten in the
 # transaction; SD store entry deleted in the transaction; D delete of an absent key; SDO deleted then written again;
@@ -800,11 +808,11 @@ def gen_small(rng, kind: str, alphabet: str = FULL_ALPHABET, maxpat: int = 8, mo
             if r < 0.45:
                 ops.append(["set", t, rand_val(rng, False), rng.choice([None, None, 80])])
             elif r < 0.8:
-                ops.append(["del", t])
+                ops.append([rng.choice(["del", "del", "delm"]), t])
             elif r < 0.9:
-                ops += [["del", t], ["set", t, rand_val(rng, False), None]]
+                ops += [[rng.choice(["del", "delm"]), t], ["set", t, rand_val(rng, False), None]]
             else:
-                ops += [["set", t, rand_val(rng, False), None], ["del", t]]
+                ops += [["set", t, rand_val(rng, False), None], [rng.choice(["del", "delm"]), t]]
         if rng.random() < 0.4:
             # earlier pattern commands between the writes: the identical pattern (None), or another one
             for _ in range(rng.randint(1, 2)):
@@ -817,6 +825,11 @@ def gen_small(rng, kind: str, alphabet: str = FULL_ALPHABET, maxpat: int = 8, mo
             case["secret"] = True
         if rng.random() < 0.45:
             case["warm"] = rand_warm(rng, case["cmd"])
+        if case["cmd"] != "delete_match" and texts and rng.random() < 0.12:
+            # a ttl assigned inside the transaction elapses before the judged read
+            case["txops"] = ops + [["set", rng.choice(texts), rand_val(rng, False), 4]]
+            case["txadv"] = 8
+            case["crossing"] = True
     return case
 
 
@@ -870,7 +883,7 @@ def split_case(rng, texts: list[str], placement: list[str], pattern: str, cmd: s
             w = rand_val(rng, False)
         if p in ("B", "BO", "BD"):
             keys.append([t, None, v if is_bits(v) else rng.choice(BIT_VALS)])
-        elif p in ("S", "SO", "SD", "SDO"):
+        elif p in ("S", "SO", "SD", "SDO", "SOD"):
             keys.append([t, None, v])
         elif p == "St":
             keys.append([t, adv + 80, v])
@@ -886,7 +899,25 @@ def split_case(rng, texts: list[str], placement: list[str], pattern: str, cmd: s
             ops += [["del", t], ["set", t, w, None]]
         elif p == "OD":
             ops += [["set", t, w, None], ["del", t]]
+        elif p == "SOD":
+            ops += [["set", t, w, None], ["delm", t]]
     return {"kind": "tx", "mode": mode, "keys": keys, "adv": adv, "txops": ops, "txadv": 0, "cmd": cmd, "pattern": pattern}
+
+
+def crossing_cases():
+    """a ttl assigned inside the transaction elapses before the judged scan / get_match: the key is also in the store (its old value
+    is what the transaction sees again) or only in the buffer (gone), next to a key written without ttl - x 3 modes x warm-ups"""
+    out = []
+    for mode in ("fast", "locked", "serializable"):
+        for cmd in ("scan", "get_match"):
+            for stored in (True, False):
+                for also in ([], [["set", "a.c", "t:2", None]], [["del", "a.c"]], [["set", "a.c", "t:2", 4]]):
+                    for i in range(len(WARMS)):
+                        keys = ([["a.b", None, "t:1"]] if stored else []) + [["a.c", None, "n"], ["axb", None, "t:3"]]
+                        c = {"kind": "tx", "mode": mode, "keys": keys, "adv": 0, "txops": [["set", "a.b", "t:9", 4]] + also, "txadv": 8,
+                             "cmd": cmd, "pattern": "a.*", "crossing": True}
+                        out.append((f"crossing:{mode}:{cmd}:{stored}:{len(also)}:{i}", with_warm(c, i)))
+    return out
 
 
 WARMS = [None, [["scan", "outside"]], [["get_match", "outside"]], [["scan", "tx"]], [["get_match", "tx"]],
@@ -1088,6 +1119,18 @@ def interesting(case: dict) -> list[str]:
         tags.append("invalidate_template_with_accessor")
         if any((case.get("access") or {}).get(seg[1]) in ("sub", "subattr") for seg in case["template"] if seg[0] == "arg"):
             tags.append("invalidate_template_field_starts_with_a_subscript")
+    if case.get("crossing"):
+        tags.append("tx_buffered_write_expired_before_the_pattern_read")
+        if any(op[0] == "set" and op[3] is not None and op[3] <= case.get("txadv", 0) and op[1] in live and pyglob(pat, op[1]) for op in ops):
+            tags.append("tx_expired_buffered_write_over_a_matching_store_key")
+    if any(op[0] == "delm" for op in ops):
+        tags.append("tx_delete_many")
+        wr = set()
+        for op in ops:
+            if op[0] == "set":
+                wr.add(op[1])
+            elif op[0] == "delm" and op[1] in wr and op[1] in live and pyglob(pat, op[1]):
+                tags.append("tx_matching_store_key_written_then_removed_by_delete_many")
     if case["kind"] == "iter":
         between = case.get("between") or []
         flat = [op for step in between for op in step]
